@@ -24,3 +24,43 @@ func GoodSortedByKey(x []byte, key []int) []byte {
 	sort.Slice(tmp, func(i, j int) bool { return key[tmp[i]] < key[tmp[j]] })
 	return tmp
 }
+
+type frame struct {
+	node int
+	next int
+}
+
+// STALEPTR: the parent frame's resume position is written after the child was pushed
+func BadStaleFrame(kids [][]int) int {
+	stack := make([]frame, 1, 2)
+	n := 0
+	for len(stack) > 0 {
+		top := &stack[len(stack)-1]
+		if top.next < len(kids[top.node]) {
+			child := kids[top.node][top.next]
+			stack = append(stack, frame{child, 0})
+			top.next++
+			n++
+			continue
+		}
+		stack = stack[:len(stack)-1]
+	}
+	return n
+}
+
+func GoodFrame(kids [][]int) int {
+	stack := make([]frame, 1, 2)
+	n := 0
+	for len(stack) > 0 {
+		top := &stack[len(stack)-1]
+		if top.next < len(kids[top.node]) {
+			child := kids[top.node][top.next]
+			top.next++
+			stack = append(stack, frame{child, 0})
+			n++
+			continue
+		}
+		stack = stack[:len(stack)-1]
+	}
+	return n
+}
